@@ -1,5 +1,6 @@
 //! hv: conformance harness binding the TLA+ specification in /verif/spec to the hpo crate.
 mod cmd_core;
+mod cmd_sim;
 mod enc;
 mod paths;
 mod project;
@@ -17,6 +18,7 @@ fn main() {
     let args = Args::parse(&argv[2..]);
     match argv[1].as_str() {
         "replay-core" => cmd_core::run(&args),
+        "replay-sim" => cmd_sim::run(&args),
         "replay-one" => {
             let text = std::fs::read_to_string(args.req("file")).unwrap_or_else(|e| {
                 eprintln!("cannot read replay file: {e}");
@@ -28,6 +30,7 @@ fn main() {
             });
             let reproduced = match v["cmd"].as_str().unwrap_or("") {
                 "replay-core" => cmd_core::replay_one(&v),
+                "replay-sim" => cmd_sim::replay_one(&v),
                 other => {
                     eprintln!("unknown replay cmd {other}");
                     std::process::exit(2)
